@@ -283,7 +283,7 @@ def main():
     jobs = [(dict(i, timeout=min(i["timeout"], 60)), True) for i in wit] + jobs
 
     jobs.sort(key=lambda j: -j[0].get("cost", 1))      # expensive instances first (better packing on the cores)
-    budget = float(os.environ.get("VERIF_BUDGET_S", "0") or 0) or (900.0 if tier == "thorough" else 0.0)
+    budget = float(os.environ.get("VERIF_BUDGET_S", "0") or 0) or (720.0 if tier == "thorough" else 0.0)
     if tier == "thorough":
         # thorough = the quick instances (same names) first, then the deeper ones in the seeded order, until the wall
         # budget is used up: instances not started by then are recorded as skipped, never as confirmed
